@@ -6,6 +6,7 @@ import Juniper.Driver.C10Chan
 import Juniper.Driver.C12
 import Juniper.Driver.C05
 import Juniper.Driver.C06
+import Juniper.Driver.C11
 /-! `driver <model>`: runs one executable model behind the line protocol. Core-only (no Mathlib).
 Registration: one `import` line above and one `[("name", handler)],` line below per model
 (this file is merged with git's union driver, so keep one entry per line). -/
@@ -19,6 +20,7 @@ def handlers : List (String × Handler) := List.flatten [
   [("merge", Juniper.Driver.C12.mergeHandler), ("replicate", Juniper.Driver.C12.replHandler), ("smerge", Juniper.Driver.C12.smergeHandler)],
   [("heap", Juniper.Driver.C05.handler)],
   [("xlist", Juniper.Driver.C06.handler)],
+  [("batch", Juniper.Driver.C11.handler)],
   []]
 
 def main (args : List String) : IO UInt32 := do
